@@ -92,3 +92,21 @@ pub proof fn lemma_ms_fields(ms: int)
     assert(ms / 3_600_000 == c) by { vstd::arithmetic::div_mod::lemma_fundamental_div_mod_converse(ms, 3_600_000, c, 60_000 * (b % 60) + 1000 * (a % 60) + ms % 1000); }
     vstd::arithmetic::div_mod::lemma_fundamental_div_mod_converse(ms, 86_400_000, d, 3_600_000 * (c % 24) + 60_000 * (b % 60) + 1000 * (a % 60) + ms % 1000);
 }
+
+/// splitting a valid time's nanosecond count at each unit boundary
+pub proof fn lemma_time_split(h: int, mi: int, s: int, ms: int, us: int, ns: int)
+    requires valid_time_fields(h, mi, s, ms, us, ns),
+    ensures ({ let t = time_ns(h, mi, s, ms, us, ns);
+        t / 3_600_000_000_000 == h && t % 3_600_000_000_000 == time_ns(0, mi, s, ms, us, ns)
+        && t / 60_000_000_000 == h * 60 + mi && t % 60_000_000_000 == time_ns(0, 0, s, ms, us, ns)
+        && t / 1_000_000_000 == (h * 60 + mi) * 60 + s && t % 1_000_000_000 == time_ns(0, 0, 0, ms, us, ns)
+        && t / 1_000_000 == ((h * 60 + mi) * 60 + s) * 1000 + ms && t % 1_000_000 == time_ns(0, 0, 0, 0, us, ns)
+        && t / 1000 == (((h * 60 + mi) * 60 + s) * 1000 + ms) * 1000 + us && t % 1000 == ns }),
+{
+    let t = time_ns(h, mi, s, ms, us, ns);
+    vstd::arithmetic::div_mod::lemma_fundamental_div_mod_converse(t, 3_600_000_000_000, h, time_ns(0, mi, s, ms, us, ns));
+    vstd::arithmetic::div_mod::lemma_fundamental_div_mod_converse(t, 60_000_000_000, h * 60 + mi, time_ns(0, 0, s, ms, us, ns));
+    vstd::arithmetic::div_mod::lemma_fundamental_div_mod_converse(t, 1_000_000_000, (h * 60 + mi) * 60 + s, time_ns(0, 0, 0, ms, us, ns));
+    vstd::arithmetic::div_mod::lemma_fundamental_div_mod_converse(t, 1_000_000, ((h * 60 + mi) * 60 + s) * 1000 + ms, time_ns(0, 0, 0, 0, us, ns));
+    vstd::arithmetic::div_mod::lemma_fundamental_div_mod_converse(t, 1000, (((h * 60 + mi) * 60 + s) * 1000 + ms) * 1000 + us, ns);
+}
